@@ -962,7 +962,7 @@ func (v *Verifier) ringLayerField(pkg *ssa.Package, c *Contract) *FieldParams {
 	kind := f[0]
 	var fp *FieldParams
 	for _, tn := range f {
-		if tn == "ring" || tn == "opaque" || tn == "bigint" {
+		if isLayerKind(tn) {
 			kind = tn
 			continue
 		}
